@@ -16,6 +16,7 @@ import (
 	"net"
 	"net/http"
 	"os"
+	"runtime"
 	"sort"
 	"strings"
 	"sync"
@@ -202,4 +203,84 @@ func TestVerifE4Liveness(t *testing.T) {
 	}
 	fmt.Printf("LIVENESS-OK readers=%d peers=%d ms=%d%s\n", readers, peers, ms, mix.String())
 	env.Stop()
+}
+
+// TestVerifE4Unbounded (audit C28g; open known findings `unbounded-line-read`, `unbounded-http-body-read`):
+// a byte sequence without a newline on the TCP port, and a POST body that never ends on the HTTP port, are buffered
+// in full — `reader.ReadString('\n')` (lookup_protocol_v1.go:41) and `io.ReadAll(req.Body)`
+// (internal/http_api/req_params.go:21) have no limit. Deterministic observation, no timing oracle: the test
+// process contains the daemon; the client writes N bytes from ONE reused 64 KiB block (so the client side holds
+// nothing), waits until the daemon has taken them, forces a GC and reads the LIVE heap. The finding reproduces iff
+// the live heap grew by at least N/2 while the connection is still open and unanswered; a daemon with a bounded
+// line / body closes (or answers) long before and the growth stays small.
+func TestVerifE4Unbounded(t *testing.T) {
+	n := vfEnvInt("VERIF_UNBOUNDED_MIB", 32) << 20
+	env := vfE4Start(true, nil)
+	defer env.Stop()
+	live := func() int64 {
+		runtime.GC()
+		runtime.GC()
+		var m runtime.MemStats
+		runtime.ReadMemStats(&m)
+		return int64(m.HeapAlloc)
+	}
+	block := bytes.Repeat([]byte("A"), 64<<10)
+	probe := func(kind string, addr string, head []byte) {
+		base := live()
+		c, err := net.DialTimeout("tcp", addr, vfE4IOTimeout)
+		if err != nil {
+			vfE4GiveUp("unbounded %s: connect: %v", kind, err)
+		}
+		defer c.Close()
+		c.SetDeadline(time.Now().Add(vfE4IOTimeout))
+		sent, open := 0, true
+		if _, err := c.Write(head); err != nil {
+			open = false
+		}
+		for open && sent < n {
+			k, err := c.Write(block)
+			sent += k
+			if err != nil {
+				open = false // the daemon closed the connection: it does bound what it reads
+			}
+		}
+		// wait (bounded) until the daemon holds what was sent — or it turns out that it does not keep it
+		grow := int64(0)
+		for i := 0; i < 200; i++ {
+			grow = live() - base
+			if !open || grow >= int64(sent)*9/10 {
+				break
+			}
+			time.Sleep(10 * time.Millisecond)
+		}
+		// has the daemon answered or closed? (read with a short deadline: a timeout means "still waiting for more")
+		c.SetReadDeadline(time.Now().Add(150 * time.Millisecond))
+		one := make([]byte, 1)
+		_, rerr := c.Read(one)
+		waiting := false
+		if ne, ok := rerr.(net.Error); ok && ne.Timeout() {
+			waiting = true
+		}
+		fmt.Printf("E4-UNBOUNDED kind=%s sent=%d live_heap_growth=%d still_waiting=%v reproduced=%v\n", kind, sent, grow, waiting,
+			waiting && sent >= n && grow >= int64(n)/2)
+		c.Close()
+		env.waitGoneAll()
+		fmt.Printf("E4-UNBOUNDED-AFTER kind=%s live_heap_growth_after_close=%d\n", kind, live()-base)
+	}
+	probe("line", env.l.RealTCPAddr().String(), []byte("  V1"))
+	probe("http-body", env.l.RealHTTPAddr().String(), []byte(fmt.Sprintf(
+		"POST /topic/create?topic=t HTTP/1.1\r\nHost: x\r\nContent-Type: application/octet-stream\r\nContent-Length: %d\r\n\r\n", n+1)))
+	fmt.Printf("E4-UNBOUNDED-DONE\n")
+}
+
+// waitGoneAll: every TCP connection the daemon tracks has run its exit path (bounded wait)
+func (e *vfE4Env) waitGoneAll() {
+	for i := 0; i < 2000; i++ {
+		cnt := 0
+		e.l.tcpServer.conns.Range(func(k, v interface{}) bool { cnt++; return true })
+		if cnt == 0 {
+			return
+		}
+		time.Sleep(time.Millisecond)
+	}
 }
